@@ -89,6 +89,7 @@ impl Property for C11 {
         let mut o = Outcome::ok();
         let plan = WritePlan::default();
         let mut w = World::new();
+        w.poll_budget = 200_000_000; // long histories: hundreds of thousands of operations
         if let Err(e) = connect_and_run(&mut w, ConnectSpec::default(), &default_connack(), &plan) {
             return Outcome::fail("HARNESS/prologue", e);
         }
